@@ -194,17 +194,34 @@ func (u *Unit) mergeStates(a, b *State) *State {
 	for n < len(a.pc) && n < len(b.pc) && a.pc[n].S == b.pc[n].S {
 		n++
 	}
-	ca := And(a.pc[n:]...)
-	cb := And(b.pc[n:]...)
+	// definitional assumptions are hoisted (they only constrain symbols that
+	// are fresh on their own path); the rest distinguishes the two states
+	var hoisted, ra, rb []T
+	for _, t := range a.pc[n:] {
+		if definitional[t.S] {
+			hoisted = append(hoisted, t)
+		} else {
+			ra = append(ra, t)
+		}
+	}
+	for _, t := range b.pc[n:] {
+		if definitional[t.S] {
+			hoisted = append(hoisted, t)
+		} else {
+			rb = append(rb, t)
+		}
+	}
+	ca := And(ra...)
+	cb := And(rb...)
 	if ca.S == "true" && cb.S == "true" {
 		// identical conditions: nothing distinguishes them
 	}
 	m := a.clone()
-	m.pc = append(append([]T(nil), a.pc[:n]...), Or(ca, cb))
+	m.pc = append(append(append([]T(nil), a.pc[:n]...), hoisted...), Or(ca, cb))
 	c := ca // selector: state a's suffix holds
 	if len(c.S) > bindThreshold {
 		sel := u.fresh("sel", SBool)
-		m.assume(Eq(sel, ca))
+		m.assumeDef(Eq(sel, ca))
 		c = sel
 	}
 	mv := func(x, y Value) (Value, bool) {
@@ -215,6 +232,7 @@ func (u *Unit) mergeStates(a, b *State) *State {
 		return v, ok
 	}
 	_ = mv
+	var pendingPriv []privRef
 	// cells
 	for k, va := range a.cells {
 		vb, ok := b.cells[k]
@@ -226,6 +244,17 @@ func (u *Unit) mergeStates(a, b *State) *State {
 			return nil
 		}
 		m.cells[k] = v
+		// a slice that is private on both sides stays private after the merge
+		if ta, okA := va.(T); okA && ta.Sort == SSlice {
+			if tb, okB := vb.(T); okB && ta.S != tb.S && u.isPrivateArr(a, ta) && u.isPrivateArr(b, tb) {
+				if tv, okV := v.(T); okV {
+					arr := u.fresh("arr.m", SInt)
+					m.assumeDef(Eq(arr, Ite(c, T{u.arrOf(ta), SInt}, T{u.arrOf(tb), SInt})))
+					u.sliceArr[tv.S] = arr.S
+					pendingPriv = append(pendingPriv, privRef{arr, "arr:" + k.elemSort(u)})
+				}
+			}
+		}
 	}
 	for k, vb := range b.cells {
 		if _, ok := a.cells[k]; !ok {
@@ -319,6 +348,11 @@ func (u *Unit) mergeStates(a, b *State) *State {
 			m.lastArgs[k] = xb
 		}
 	}
+	for k, g := range b.calleeGhosts {
+		if _, ok := m.calleeGhosts[k]; !ok {
+			m.calleeGhosts[k] = g
+		}
+	}
 	m.lastRes = map[string]Value{}
 	for k, xa := range a.lastRes {
 		xb, ok := b.lastRes[k]
@@ -376,7 +410,7 @@ func (u *Unit) mergeStates(a, b *State) *State {
 			}
 		}
 	}
-	m.private = priv
+	m.private = append(priv, pendingPriv...)
 	if a.acq != b.acq {
 		if a.acq == nil || b.acq == nil {
 			return nil
